@@ -44,6 +44,10 @@ func drawGaps(t *rapid.T, n int, rich bool) []string {
 			}
 		}
 	}
+	// at the very end of the input a comment needs no newline
+	if rich && rapid.IntRange(0, 5).Draw(t, "eofcomment") == 0 {
+		gaps[n] = rapid.SampledFrom([]string{"//", "#", " //", nl + "//", "// c", "#c", "\t# é", "  // x //"}).Draw(t, "eofc")
+	}
 	return gaps
 }
 
